@@ -7,7 +7,7 @@ import re
 txt = open('/tmp/mut/reharm_out.txt').read()
 ids, bad, cur = [], set(), None
 for line in txt.splitlines():
-    m = re.match(r'^(C\d\d-h\d) C\d\d:', line)
+    m = re.match(r'^([CP]\d+-h\d) C\d\d:', line)
     if m:
         cur = m.group(1); ids.append(cur)
     if cur and ('VIOLATION' in line or 'HARNESS' in line or 'Traceback' in line):
